@@ -201,7 +201,7 @@ HIST_RULE = ('histories = sequences of opcodes (51 kinds: every constructor/fact
 PROPS['C10'] = dict(
     units=[dict(target=HIST_T, quick=dict(args=['--focus', 'C10'], scale=4.0), thorough=dict(args=['--focus', 'C10', '--max-size', '200'], scale=12.0, shards=8)),
            dict(target=HIST_T_CHECKS, quick=dict(args=['--focus', 'C10'], scale=1.0), thorough=dict(args=['--focus', 'C10', '--max-size', '200'], scale=6.0, shards=8)),
-           fuzz_unit(2, 150000, 2000000)],
+           fuzz_unit(2, 150000, 700000)],
     rule=HIST_RULE + 'Oracle (C10) after EVERY step, for EVERY live object, through public accessors: grid >= 2 strictly increasing points; support (0,0) or start<end<=grid size with consistent size/empty/interval count; spline coefficient-array count == interval count; '
          'moved-from support/spline is empty/interval-free on the same grid, behaves as the zero spline when added / multiplied / assigned to; self-copy-assignment preserves the value; the harness is also built with BSPLINE_ADD_TEST_CHECKS so an INCONSISTENT_DATA from a self-check on valid input is a failure. '
          'Non-trivial: the history contains a move or a failing call followed by a further use of an object involved. Distinct = distinct history text.',
@@ -251,7 +251,7 @@ def valgrind_unit():
 
 PROPS['C09'] = dict(
     units=[valgrind_unit(), dict(target=HIST_T, quick=dict(args=['--focus', 'C09'], scale=4.0), thorough=dict(args=['--focus', 'C09', '--max-size', '200'], scale=12.0, shards=8)),
-           fuzz_unit(1, 250000, 3000000)],
+           fuzz_unit(1, 250000, 1200000)],
     rule=HIST_RULE + 'Oracle (C09): no ASan / UBSan / _GLIBCXX_ASSERTIONS (rapidcheck build) or _GLIBCXX_DEBUG (libFuzzer build) report, no foreign exception (std::out_of_range, bad_optional_access, ...) and no BSplineException from a call whose preconditions hold; '
          'checked accessors (Grid::at, Support::at, absoluteFromRelative, front/back) throw exactly for indices outside the view and otherwise return the element grid[start+index]. '
          'Non-trivial: a spline-factor operator applied where the factor\'s support ends inside the operand, a cross-order operation on partly overlapping windows, or an accessor index above 2^32. Distinct = distinct history text.',
